@@ -10,6 +10,7 @@ import (
 	"math/big"
 	"sort"
 	"strings"
+	"time"
 
 	"github.com/blinklabs-io/gouroboros/cbor"
 	"github.com/blinklabs-io/gouroboros/ledger/common"
@@ -18,7 +19,7 @@ import (
 type c06MA = common.MultiAsset[*big.Int]
 
 func init() {
-	register(&Prop{ID: "C06", Gen: genC06, Run: runC06})
+	register(&Prop{ID: "C06", Gen: genC06, Run: runC06, Timeout: 10 * time.Minute})
 }
 
 // ---- literals
